@@ -142,3 +142,7 @@ def KEYS_DIR(context):
     if os.path.isdir(context):
         return str(pathlib.Path(context))
     return str(pathlib.Path(json.loads(context)["keys_directory"]))
+
+
+def UNHEX(s):
+    return bytes.fromhex(s)
